@@ -92,7 +92,15 @@ func c04Gen(t *rapid.T) c04Scenario {
 	if s.Cfg.V6 && rapid.Bool().Draw(t, "v6only") {
 		s.Cfg.NoV4 = true
 	}
-	if !s.Cfg.Trunk && rapid.IntRange(0, 3).Draw(t, "erdma") == 0 {
+	if rapid.IntRange(0, 5).Draw(t, "enionly") == 0 {
+		// exclusive-ENI node: one address per interface, no trunk, several interfaces
+		s.Cfg.ENIOnly, s.Cfg.Cap, s.Cfg.Batch, s.Cfg.Trunk = true, 1, 1, false
+		for i := range s.Cfg.PreENIs {
+			s.Cfg.PreENIs[i] = 1
+		}
+		s.Cfg.Slots += rapid.IntRange(1, 3).Draw(t, "moreslots")
+	}
+	if !s.Cfg.Trunk && !s.Cfg.ENIOnly && rapid.IntRange(0, 3).Draw(t, "erdma") == 0 {
 		// enable_erdma (the daemon switches it off on a trunk node)
 		s.Cfg.Erdma = 1
 		s.ErdmaMask = rapid.IntRange(1, 1<<c04Pods-1).Draw(t, "erdmapods")
